@@ -422,6 +422,11 @@ func (c *run08) reset(in *inst08) {
 		}
 		in.msg = append(in.msg, p...)
 	case pvS != nil && pvW != nil:
+		if c.v.kind == kKeccak {
+			// the legacy state's own Reset comment is explicit: "setting Sponge.state to absorbing"
+			c.fail(in, "reset-after-read:still-squeezing:keccak", map[string]any{"sum_panic": fmt.Sprint(pvS), "write_panic": fmt.Sprint(pvW)})
+			return
+		}
 		c.m.Count("reset_after_read_keeps_both_panicking", 1)
 		in.dead = true // consistent second reading; nothing further is specified for this object
 	default:
